@@ -27,6 +27,8 @@ func main() {
 	replay := fs.String("replay", "", "replay file")
 	shards := fs.Int("shards", 1, "trace shards")
 	profile := fs.String("profile", "payload", "generation profile")
+	repo := fs.String("repo", "/repo", "checkout of nfpm under test (key files)")
+	nfpmBin := fs.String("nfpm", "", "built nfpm binary (CLI runs)")
 	fs.Parse(os.Args[2:])
 	if *scratch == "" {
 		fmt.Fprintln(os.Stderr, "--scratch required")
@@ -39,6 +41,8 @@ func main() {
 	switch fam {
 	case "plan":
 		stats = famPlan(tr, *scratch, *seed, *tier, *workers)
+	case "fault":
+		stats = famFault(tr, *scratch, *seed, *tier, *workers, *repo, *nfpmBin)
 	case "config":
 		stats = famConfig(tr, *scratch, *seed, *tier, *workers, *profile)
 	case "pkg":
